@@ -3,7 +3,8 @@
 (1) the existing suite passes with the change, (2) the demonstration fails with the change,
 (3) the demonstration passes without it.  Writes /verif/seeded/<prop>-<m>/{patch.diff,demo_test.go,meta.json}."""
 import json, os, subprocess, sys, shutil, re
-PINNED = "562467b"
+PINNED = os.environ.get("SEED_BASE", "562467b")  # SEED_BASE=<repaired HEAD> re-confirms a change on the repaired tree
+DRY = os.environ.get("SEED_DRY", "") != ""
 WT = "/tmp/wt/confirm"
 VEC = {"C14", "C15", "C16", "C19"}
 SUFFIX = os.environ.get("SEED_SUFFIX", "")
@@ -48,7 +49,7 @@ def main():
                     rc1b, _ = isotest("./...")
                 ok = (rc1 == 0 and rc1b == 0 and rc2 != 0 and rc3 == 0)
                 results.append((p, m, "CONFIRMED" if ok else "NOT CONFIRMED suite_rc=%d demo_with=%d demo_without=%d" % (rc1, rc2, rc3)))
-                if ok:
+                if ok and not DRY:
                     d = "/verif/seeded/%s-%s" % (p, m)
                     os.makedirs(d, exist_ok=True)
                     shutil.copy(diff, os.path.join(d, "patch.diff"))
